@@ -12,8 +12,10 @@ structure Full (c : Cfg) : Prop where
   pred : ∀ k y rhs, (y, rhs) ∈ c.rules → rhs ∈ c.pred k y
   /-- `predict` ends by completing the finished empty derivations (/repo 1d73281f) -/
   predDone : c.predDone = true
-  /-- a scan moves forward and stays inside the table (no `IndexError`) -/
-  scanIn : ∀ t k e l, c.scan t k = some (e, l) → k < c.ncols → k ≤ e ∧ e < c.ncols
+  /-- a scan moves forward … -/
+  scanMono : ∀ t k e l, c.scan t k = some (e, l) → k ≤ e
+  /-- … and stays inside the table (no `IndexError`) -/
+  scanIn : ∀ t k e l, c.scan t k = some (e, l) → k < c.ncols → e < c.ncols
 
 /-- the chart grew (or stayed), the current column is the same -/
 structure Grow (m m' : M) : Prop where
@@ -284,7 +286,8 @@ theorem ci_step {c : Cfg} (hfull : Full c) {m m' : M} (h : CI c m) (hst : step c
                 cases hs
                 rw [hsc] at hsc'; cases hsc'
               · rename_i e l hsc
-                obtain ⟨hke, hen⟩ := hfull.scanIn term m.k e l hsc hk
+                have hke := hfull.scanMono term m.k e l hsc
+                have hen := hfull.scanIn term m.k e l hsc hk
                 split at hst
                 · rename_i hbad; omega
                 · cases hst
